@@ -120,10 +120,7 @@ def check_C01(ctx):
         total += n
         viols += run_family(ctx, "pairs-" + typ, behs, C01_TAGS)
     fresh, known = split_known(ctx, viols)
-    cov = {"states": sum(r["distinct_states"] for r in ctx.tlc_runs), "transitions": sum(r["states_generated"] for r in ctx.tlc_runs),
-           "traces_validated_against_impl": ctx.counters.get("traces_validated", 0),
-           "behaviours_enumerated_by_tlc": total, "exhaustive": not quick}
-    return "model_checking", fresh, known, cov, ["memdb backend only"]
+    return "model_checking", fresh, known, mc_cov(ctx, behaviours_enumerated_by_tlc=total, exhaustive=not quick), ["memdb backend only"]
 
 
 C03_TAGS = {"Converged", "RefEquiv", "SyncNeverFails", "LogReplayable", "BuildNeverFails", "BuildEquiv", "EditNeverFails", "CloneEqRoot"}
@@ -138,10 +135,7 @@ def check_C03(ctx):
     behs = gen_sim(ctx, "gc-sim3", 300 if quick else 3000, alphabet="OpsGC", clients="Seq3", weight=10)
     viols += run_family(ctx, "gc-sim3", behs, C03_TAGS)
     fresh, known = split_known(ctx, viols)
-    cov = {"states": sum(r["distinct_states"] for r in ctx.tlc_runs) + ctx.counters.get("trace_states", 0),
-           "transitions": sum(r["states_generated"] for r in ctx.tlc_runs),
-           "traces_validated_against_impl": ctx.counters.get("traces_validated", 0)}
-    return "model_checking", fresh, known, cov, ["memdb backend only"]
+    return "model_checking", fresh, known, mc_cov(ctx), ["memdb backend only"]
 
 
 def mc_cov(ctx, **extra):
@@ -309,7 +303,7 @@ def check_C10(ctx):
 
 
 C11_TAGS = {"WriteOnlyWhenActive", "WriteOnlyWhenAttached", "RemovedStoresNothing", "RemovedIsSticky", "DetachTakesEffect",
-            "RemoveTakesEffect", "DeactivateDetachesAll", "DeactivateNeverFails", "DetachedHoldsNoGC", "SyncNeverFails"}
+            "RemoveTakesEffect", "DeactivateDetachesAll", "DeactivateNeverFails", "MinVVNotHeldBack", "SyncNeverFails"}
 
 
 def check_C11(ctx):
